@@ -254,6 +254,14 @@ static Circuit makeCircuit(vh::Rng &g, bool small, vc::GenInfo *gi) {
     c.setCellOrientation(orr);
   }
   c.setCellIsFixed(fx);
+  // the rows in the order the user listed them are part of the frame ("rows identical before and after"): one circuit
+  // in three lists them out of order (reversed or shuffled; setupRows and the generator list them bottom-up, left to right)
+  if (c.nbRows() >= 2 && g.chance(1, 3)) {
+    std::vector<Row> rows = c.rows();
+    if (g.chance(1, 2)) std::reverse(rows.begin(), rows.end());
+    else for (size_t i = rows.size(); i > 1; --i) std::swap(rows[i - 1], rows[g.range(0, (long long)i - 1)]);
+    c.setRows(rows);
+  }
   return c;
 }
 
